@@ -43,6 +43,9 @@ directory) GEN "tree" through MapFS (zone/include:rdata: a decoy file's record) 
 C06-4 (a relative name whose last octet is an escaped dot taken for absolute) GEN seq/idx, shapes 36/40/42 and the special-octet
 labels of record mode (zone/rr:owner, zone/include:owner, zone/generate:owner:plain); C06-5, C06-6 GEN + TV.
 
+C06-8 (owner token cached across $ORIGIN) GEN idx: the family (rr X)(directive)(rr X') of same-spelled owners, canonical / noisy
+spellings (zone/rr:owner); also the owner-repeating bias of the random sequences and of record mode.
+
 Findings on the unchanged tree: known-findings.d/C06.txt.
 """
 import os, json, random, threading
